@@ -297,22 +297,22 @@ theorem ledgerMove_untouched {l l' : Ledger} {g src dst amt : Nat}
     rw [lget_lset_ne _ h2, lget_lset_ne _ h1]
 
 /-- account `y` has exactly the same coins, CW20 balances and NFTs in `w'` as in `w` -/
-structure Untouched (y : Nat) (w w' : World) : Prop where
+structure UntouchedFung (y : Nat) (w w' : World) : Prop where
   bank : ∀ d, lget w'.bank (y, d) = lget w.bank (y, d)
   cw20 : ∀ t, lget w'.cw20 (t, y) = lget w.cw20 (t, y)
   nft : ∀ k, alookup k w'.nft = some y ↔ alookup k w.nft = some y
 
-theorem Untouched.refl (y : Nat) (w : World) : Untouched y w w :=
+theorem UntouchedFung.refl (y : Nat) (w : World) : UntouchedFung y w w :=
   ⟨fun _ => rfl, fun _ => rfl, fun _ => Iff.rfl⟩
 
-theorem Untouched.trans {y : Nat} {a b c : World} (h1 : Untouched y a b) (h2 : Untouched y b c) :
-    Untouched y a c :=
+theorem UntouchedFung.trans {y : Nat} {a b c : World} (h1 : UntouchedFung y a b) (h2 : UntouchedFung y b c) :
+    UntouchedFung y a c :=
   ⟨fun d => (h2.bank d).trans (h1.bank d), fun t => (h2.cw20 t).trans (h1.cw20 t),
    fun k => (h2.nft k).trans (h1.nft k)⟩
 
 /-- one dispatched message touches the marketplace's and its recipient's holdings only -/
 theorem dispatch1_untouched {w w' : World} {msg : OutMsg} (h : dispatch1 w msg = some w')
-    {y : Nat} (hs : y ≠ w.self) (hr : msg.recipient w.pool ≠ y) : Untouched y w w' := by
+    {y : Nat} (hs : y ≠ w.self) (hr : msg.recipient w.pool ≠ y) : UntouchedFung y w w' := by
   cases msg with
   | bankSend to coins =>
     simp only [dispatch1] at h
@@ -327,7 +327,7 @@ theorem dispatch1_untouched {w w' : World} {msg : OutMsg} (h : dispatch1 w msg =
     repeat' split at h
     all_goals first
       | (cases h; done)
-      | (simp only [Option.some.injEq] at h; subst h; exact Untouched.refl _ _)
+      | (simp only [Option.some.injEq] at h; subst h; exact UntouchedFung.refl _ _)
       | skip
     next l hl =>
       simp only [Option.some.injEq] at h; subst h
@@ -340,7 +340,7 @@ theorem dispatch1_untouched {w w' : World} {msg : OutMsg} (h : dispatch1 w msg =
     repeat' split at h
     all_goals first
       | (cases h; done)
-      | (simp only [Option.some.injEq] at h; subst h; exact Untouched.refl _ _)
+      | (simp only [Option.some.injEq] at h; subst h; exact UntouchedFung.refl _ _)
       | skip
     next hown =>
       simp only [Option.some.injEq] at h; subst h
@@ -368,11 +368,11 @@ theorem dispatch1_untouched {w w' : World} {msg : OutMsg} (h : dispatch1 w msg =
 /-- a dispatched message list touches the marketplace's and the recipients' holdings only -/
 theorem dispatchAll_untouched {fail : Nat → Bool} {msgs : List OutMsg} :
     ∀ {w w' : World} {i : Nat}, dispatchAll fail w msgs i = some w' →
-      ∀ {y : Nat}, y ≠ w.self → (∀ x ∈ msgs, x.recipient w.pool ≠ y) → Untouched y w w' := by
+      ∀ {y : Nat}, y ≠ w.self → (∀ x ∈ msgs, x.recipient w.pool ≠ y) → UntouchedFung y w w' := by
   induction msgs with
   | nil =>
     intro w w' i h y _ _
-    simp only [dispatchAll, Option.some.injEq] at h; subst h; exact Untouched.refl _ _
+    simp only [dispatchAll, Option.some.injEq] at h; subst h; exact UntouchedFung.refl _ _
   | cons m ms ih =>
     intro w w' i h y hs hr
     simp only [dispatchAll] at h
@@ -731,16 +731,16 @@ theorem stepF_buy_untouched (fail : Nat → Bool) (w : World) (buyer lid bid : N
     (stepF fail w (.exec buyer [] (.buy lid bid))).1.nft = w.nft ∧
     ∀ y, y ≠ w.self → y ≠ w.pool →
       (∀ e ∈ sideEntries w.env l.forSale ++ sideEntries w.env b.funds, e.payout ≠ y) →
-      Untouched y w (stepF fail w (.exec buyer [] (.buy lid bid))).1 := by
+      UntouchedFung y w (stepF fail w (.exec buyer [] (.buy lid bid))).1 := by
   rcases stepF_buy_cases fail w buyer lid bid with ⟨e, hs⟩ | ⟨m', msgs, w2, hx, hdd, hs⟩
-  · rw [hs]; exact ⟨rfl, fun y _ _ _ => Untouched.refl _ _⟩
+  · rw [hs]; exact ⟨rfl, fun y _ _ _ => UntouchedFung.refl _ _⟩
   · rw [hs]
     have hrec := buy_recipients hx hl hb w.pool
     have hn : w2.nft = ({ w with mkt := m' } : World).nft :=
       dispatchAll_nft_eq hdd (fun x hx' => (hrec x hx').2)
     refine ⟨hn, ?_⟩
     intro y hy hp hr
-    have hu : Untouched y { w with mkt := m' } w2 := by
+    have hu : UntouchedFung y { w with mkt := m' } w2 := by
       refine dispatchAll_untouched hdd hy ?_
       intro x hx'
       rcases (hrec x hx').1 with e | ⟨e, he, e'⟩
